@@ -60,6 +60,8 @@ Inductive case :=
        (evs : list pev)
 | CSet (ins : list binp) (utxos : list Z) (need0 : bool) (e : Z)
        (after : list binp) (need1 : bool) (budget : Z)
+| CWest (rate maxr w : Z) (ps : list (option parent))   (* weightEstimator driven directly *)
+        (fee feewp pfee pweight : Z)
 | CSw (reqs : list (list (option Z) * option Z))      (* per BumpRequest of a composed
          sweeper history: the inputs' stored starting rates, the request's StartingFeeRate *)
       (fails : list (Z * option Z)).                  (* per TxFailed result: its FeeRate,
@@ -168,6 +170,11 @@ Definition check_case (c : case) : list Z :=
        && Bool.eqb (need_wallet_input 0 l') need1 && (set_budget 0 l' =? budget)
     then [] else [0]
   | CSw reqs fails => check_starts reqs 0 ++ check_fails fails 1000
+  | CWest rate maxr w ps fee feewp pfee pweight =>
+    let '(pf, pw) := add_parents rate ps [] 0 0 in
+    (if (west_fee rate w =? fee) && (prepare_fee rate w ps =? fee) then [] else [0]) ++
+    (if (pf =? pfee) && (pw =? pweight) then [] else [1]) ++
+    (if west_fee_with_parent rate maxr w pf pw =? feewp then [] else [2])
   | CPub ins weight floor budget maxrate h0 deadline relay ans start ivs ierr ipub irate ipos ifee evs =>
     match initial_broadcast64 ins weight floor budget maxrate h0 deadline relay
                               (ans_of ans) start (map verdict_of ivs) with
